@@ -391,7 +391,7 @@ def chk_split(before, after, k):
 # --------------------------------------------------------------------------
 class Case:
     def __init__(self, stream, name, args, call, variants, prop=None, reachable=True, site=None,
-                 compare=None, cmp=None, p=None, extra=None):
+                 compare=None, cmp=None, p=None, extra=None, alt_cmp=None):
         self.stream, self.name, self.args = stream, name, args
         self.call = call              # () -> canon or tuple starting with canon
         self.variants = variants      # draws(list of int) -> list of model requests (as_is first, then spec)
@@ -399,7 +399,7 @@ class Case:
         self.reachable = reachable    # the arguments pass the command line guard: any exception but ValueError is a failing input
         self.site = site or name
         self.compare = compare or agrees
-        self.cmp, self.p = cmp, p
+        self.cmp, self.p, self.alt_cmp = cmp, p, alt_cmp   # alt_cmp: the comparison of the repaired code
         self.extra = extra or {}
         self.prop_draws = None        # (canon, recorded integer draws) -> None | description
 
@@ -456,7 +456,10 @@ class Runner:
             ctx.violation('correspondence', 'float draws in a sampler the model reads integers for', dict(input=inp), False,
                           site=case.site, cls='unmodelled-draw')
             return got, rec
-        self.pending.append((case, inp, got, case.variants(stream), flagged))
+        reqs = case.variants(stream)
+        if case.alt_cmp is not None:
+            reqs = reqs + case.variants(int_stream(rec.draws, case.alt_cmp, case.p))
+        self.pending.append((case, inp, got, reqs, flagged))
         return got, rec
 
     def flush(self):
@@ -585,7 +588,8 @@ def case_bip_random(G, L, R, p, stream='sampler'):
             return 'p = 1 but the graph is not complete'
         return None
     return Case(stream, 'bipartite_random', [L, R, p], lambda: canon(G.bipartite_random(L, R, p)),
-                lambda s: [cmd('gg_bip_random', L, R, pok, s)], prop=prop, reachable=(L > 0 and R > 0 and pok), site='glrp', cmp='<=', p=p)
+                lambda s: [cmd('gg_bip_random', L, R, pok, s)], prop=prop, reachable=(L > 0 and R > 0 and pok), site='glrp', cmp='<=', p=p,
+                alt_cmp='<')
 
 
 def prop_tnp(t, n, p):
@@ -646,10 +650,14 @@ def judge_modify(what, before, after, args, draws):
     """structure promised by one option, given the draws it consumed (positions of random.sample)"""
     if what == 'plantclique':
         k = args[0]
+        if k > before[1]:
+            return 'a clique of %d vertices was requested in a graph of %d vertices and the request was not refused' % (k, before[1])
         cl = [p + 1 for p in draws[:k]]
         return chk_plant(before, after, [(min(a, b), max(a, b)) for a, b in itertools.combinations(cl, 2)])
     if what == 'plantbiclique':
         a, b = args
+        if a > before[1] or b > before[2]:
+            return 'a biclique larger than the graph was requested and the request was not refused'
         lf = [p + 1 for p in draws[:a]]
         rt = [p + 1 for p in draws[a:a + b]]
         return chk_plant(before, after, [(u, v) for u in lf for v in rt])
@@ -673,12 +681,12 @@ BIASES = [0.0, 0.0, 0.5, 0.9, 1.0]
 
 def run_samplers(ctx, R, G, B, quick):
     rng = ctx.rng
-    reps = 2 if quick else 8
+    reps = 2 if quick else 30
     # ---- bipartite_random_m_edges: every m from -1 to L*R+1 on small sides, the sparse/dense switch on larger ones
     for L in range(0, 5):
         for Rr in range(0, 5):
             for m in range(-1, L * Rr + 2):
-                for _ in range(1 if quick else 3):
+                for _ in range(1 if quick else 12):
                     ctx.tally('m_edges regime', 'refused' if not (L > 0 and Rr > 0 and 0 <= m <= L * Rr) else ('dense' if m > L * Rr // 3 else 'sparse'))
                     R.run(case_m_edges(G, L, Rr, m), bias=rng.choice(BIASES))
     for (L, Rr) in [(6, 7), (9, 5), (3, 20), (12, 12)] + ([] if quick else [(25, 17), (40, 3), (30, 30)]):
@@ -694,7 +702,7 @@ def run_samplers(ctx, R, G, B, quick):
             for d in sorted({-1, 0, 1, r - 1, r, r + 1}):
                 for _ in range(1 if quick else 3):
                     R.run(case_left_regular(G, l, r, d), bias=rng.choice([0, 0.5]))
-    for _ in range(20 if quick else 200):
+    for _ in range(20 if quick else 2000):
         l, r = rng.randint(1, 12), rng.randint(1, 12)
         R.run(case_left_regular(G, l, r, rng.choice([0, 1, r // 2, r - 1, r])), bias=rng.choice([0, 0.5]))
     R.flush()
@@ -704,11 +712,11 @@ def run_samplers(ctx, R, G, B, quick):
             for d in sorted({-1, 0, 1, 2, 3, r, r + 1}):
                 if l * d > 40:
                     continue
-                for _ in range(1 if quick else 4):
+                for _ in range(1 if quick else 12):
                     b = rng.choice(BIASES + [0.97])
                     ctx.tally('regular divisibility', 'refused' if (l < 0 or r <= 0 or d < 0) else ('r divides l*d' if (l * d) % r == 0 else 'r does not divide l*d'))
                     R.run(case_regular(G, l, r, d), bias=b)
-    for _ in range(30 if quick else 400):
+    for _ in range(30 if quick else 3000):
         r = rng.randint(1, 8)
         d = rng.randint(0, r)
         l = r * rng.randint(1, 3) if rng.random() < 0.5 else rng.randint(1, 10)
@@ -725,7 +733,7 @@ def run_samplers(ctx, R, G, B, quick):
             for pat in pats:
                 ctx.tally('shift pattern', 'sorted' if pat == sorted(pat) else 'unsorted')
                 R.run(case_shift(G, N, M, pat))
-    for _ in range(20 if quick else 200):
+    for _ in range(20 if quick else 1500):
         M = rng.randint(1, 9)
         pat = [rng.randint(0, M) for _ in range(rng.randint(0, 4))]
         R.run(case_shift(G, rng.randint(1, 9), M, pat))
@@ -754,7 +762,7 @@ def run_samplers(ctx, R, G, B, quick):
             R.run(case_tnp(B, t, n, p), bias=rng.choice([0, 0.3]))
     R.flush()
     # ---- options on given graphs: every k from -1 to one past the limit
-    nb = 25 if quick else 250
+    nb = 25 if quick else 2500
     for i in range(nb):
         cg = random_base(rng, 'simple')
         n, m = cg[1], len(cg[3])
@@ -1056,7 +1064,7 @@ class CliRunner:
         verdict = 'refused' if (base_failed and res[1] == 'ValueError') else 'passed'
         expected_late_refusal = (gname == 'torus' and all(d > 0 for d in ints) and 1 in ints)
         if not expected_late_refusal:
-            names = ['gnd', 'gnd-spec'] if gname == 'gnd' else [gname]
+            names = {'gnd': ['gnd', 'gnd-spec'], 'grid': ['grid', 'grid-spec'], 'torus': ['torus', 'grid-spec']}.get(gname, [gname])
             self.queue(inp, 'guard', verdict, [cmd('gg_guard', n, ints, p_ok) for n in names],
                        lambda got, rep: (rep is True and got == 'passed') or (rep is False and got == 'refused'))
         # ---------- the construction itself
@@ -1080,8 +1088,8 @@ class CliRunner:
             bits_stream = int_stream(rec.draws[:ibase], '<', pval)
             self.queue(inp, 'construction', ('ok', stages[0][1]), [cmd('gg_tnp', ints[1], ints[0], bits_stream)])
         elif gname == 'glrp' and p_ok and stages:
-            bits_stream = int_stream(rec.draws[:ibase], '<=', pval)
-            self.queue(inp, 'construction', ('ok', stages[0][1]), [cmd('gg_bip_random', ints[0], ints[1], True, bits_stream)])
+            self.queue(inp, 'construction', ('ok', stages[0][1]),
+                       [cmd('gg_bip_random', ints[0], ints[1], True, int_stream(rec.draws[:ibase], c, pval)) for c in ('<=', '<')])
         if not stages:
             return res
         # ---------- options, stage by stage on the implementation, as a whole in the model
@@ -1326,7 +1334,7 @@ def run_cli(ctx, G, A, quick):
     counter = [0]
     try:
         specs = base_specs(rng, quick)
-        reps = 1 if quick else 4
+        reps = 1 if quick else 10
         for (ty, toks) in specs:
             C.run(ty, toks, bias=rng.choice([0, 0, 0.5]))
             for _ in range(reps):
@@ -1339,10 +1347,10 @@ def run_cli(ctx, G, A, quick):
                  ('bipartite', ['shift', '4', '5', '0', '2']), ('bipartite', ['complete', '2', '3']), ('bipartite', ['empty', '2', '3']),
                  ('dag', ['path', '4']), ('dag', ['tree', '2']), ('dag', ['pyramid', '3']), ('digraph', ['pyramid', '2'])]
         for (ty, toks) in valid:
-            for _ in range(4 if quick else 24):
+            for _ in range(4 if quick else 80):
                 C.run(ty, with_options(rng, ty, toks, tmp, counter, force_save=rng.random() < 0.5), bias=rng.choice(BIASES))
         # larger random instances
-        for _ in range(40 if quick else 500):
+        for _ in range(40 if quick else 4000):
             ty = rng.choice(['simple', 'bipartite', 'bipartite'])
             if ty == 'simple':
                 n = rng.randint(2, 14)
